@@ -1,5 +1,7 @@
 package checks
 
+import "vp/run"
+
 func init() {
 	Reg["C18"] = func(tier string, seed int64) *Spec {
 		s := stepSpec("C18")
@@ -23,6 +25,29 @@ func init() {
 			s.Instances[i].Opt.LoopBound = int(maxcap) + 2
 			s.Instances[i].Opt.TimeoutMs = 300000
 		}
+		// counterexample search beyond the claimed bound: exchanges of up to 4 captures, short time budget; a
+		// counterexample is replayed natively and reported, no answer is not a claim
+		var hunt []run.Instance
+		cases := [][2]int64{{3, 35}, {6, 21}, {28, 35}, {0, 56}, {2, 38}, {4, 12}} // Qd1xd5, Ng1xf3, e4xd5, Ra1xa8, Bc1xg5, Ke1xe2 geometry
+		if tier == "thorough" {
+			for _, in := range stepInstancesDiv("VpH_C18", "quick", seed+1, 0, 1, div, map[string]int64{"maxcap": 4}) {
+				hunt = append(hunt, in)
+			}
+		}
+		for _, cs := range cases {
+			hunt = append(hunt,
+				run.Instance{Func: "VpH_C18", Params: map[string]int64{"stm": 0, "from": cs[0], "to": cs[1], "promo": 0, "hist": 0, "maxcap": 4}},
+				run.Instance{Func: "VpH_C18", Params: map[string]int64{"stm": 1, "from": cs[0] ^ 56, "to": cs[1] ^ 56, "promo": 0, "hist": 0, "maxcap": 4}})
+		}
+		for i := range hunt {
+			hunt[i].Pkg = "heur"
+			hunt[i].Opt.LoopBound = 6
+			hunt[i].Opt.TimeoutMs = 90000
+			hunt[i].Opt.Hunt = true
+			hunt[i].Opt.NoVacuity = true
+		}
+		s.Instances = append(s.Instances, hunt...)
+		s.Bounds = append(s.Bounds, "counterexample search only (not claimed): the same obligation with exchanges of up to 4 captures on 12 fixed capture geometries (quick) plus a seeded sample of the case split (thorough), 90 s per query; a counterexample is replayed on the real SEE before it is reported, no answer within the budget is reported as such")
 		return s
 	}
 }
